@@ -244,7 +244,8 @@ func validate(u gen.Universe, root [2]string) (obs, exp string, st stats, status
 			if !active {
 				st.falseMarker = true
 				if edges[k] > 0 {
-					if otherVersionRequires(sch, n.Version, r.Name, r.Version) {
+					// (the root is never replaced: nothing stale can hang off it)
+					if i != 0 && otherVersionRequires(sch, n.Version, r.Name, r.Version) {
 						staleEdges++
 						continue
 					}
@@ -273,7 +274,7 @@ func validate(u gen.Universe, root [2]string) (obs, exp string, st stats, status
 			if !agree1 {
 				return "", "", st, "reference-drift", nil
 			}
-			if !contains(one, sel) && j != 0 {
+			if !contains(one, sel) {
 				return fmt.Sprintf("%s@%s requires %s%s; selected %s@%s does not satisfy that specifier even with prereleases allowed (packaging: %v)", n.Version.Name, n.Version.Version, r.Name, r.Version, r.Name, sel, one), "the selected version satisfies the specifier", st, "ok", nil
 			}
 			allowed, agree, err := pipFilter(combined[j], versions[r.Name])
@@ -311,7 +312,7 @@ func validate(u gen.Universe, root [2]string) (obs, exp string, st stats, status
 		if explained {
 			continue
 		}
-		if otherVersionRequires(sch, from, to.Name, e.Requirement) {
+		if e.From != 0 && otherVersionRequires(sch, from, to.Name, e.Requirement) {
 			staleEdges++
 			continue
 		}
